@@ -46,11 +46,11 @@ Theorem policy_cases m :
   (Z.land m 3 = 2 -> html_policy m = PReplace)%Z /\ (Z.land m 3 = 3 -> html_policy m = PEscape)%Z.
 Proof. unfold html_policy. repeat split; intros ->; reflexivity. Qed.
 
-Theorem filter_cases s html :
-  (html_policy (s_mode s) = PDrop -> htmlSafeModeFilter s html = []) /\
-  (html_policy (s_mode s) = PReplace -> htmlSafeModeFilter s html = s_repl s) /\
-  (html_policy (s_mode s) = PEscape -> htmlSafeModeFilter s html = escape html) /\
-  (html_policy (s_mode s) = PRaw -> htmlSafeModeFilter s html = html).
+Theorem filter_cases (s : ienv) html :
+  (html_policy (en_mode s) = PDrop -> htmlSafeModeFilter s html = []) /\
+  (html_policy (en_mode s) = PReplace -> htmlSafeModeFilter s html = en_repl s) /\
+  (html_policy (en_mode s) = PEscape -> htmlSafeModeFilter s html = escape html) /\
+  (html_policy (en_mode s) = PRaw -> htmlSafeModeFilter s html = html).
 Proof. unfold htmlSafeModeFilter. repeat split; intros ->; reflexivity. Qed.
 
 (* ---- guards that keep raw markup out in every non-zero mode ---- *)
